@@ -185,6 +185,18 @@ class _FaultyFile(object):
     # -- write side
     def write(self, data):
         a = IO.armed
+        if a and a["kind"] == "K12":
+            # deferred write error: the data are accepted (buffered) but only a prefix ever reaches the disk;
+            # the error is reported when the file is flushed or closed -- and to nobody if it never is
+            cut = int(len(data) * a.get("frac", 0.5))
+            self._f.write(data[:cut])
+            self._f.flush()
+            self._deferred = True
+            IO.fired = "K12"
+            IO.armed = None
+            return len(data)
+        if getattr(self, "_deferred", False):
+            return len(data)
         if a and a["kind"] == "K7":
             cut = int(len(data) * a.get("frac", 0.5))
             self._f.write(data[:cut])
@@ -194,7 +206,17 @@ class _FaultyFile(object):
             raise _oserror("ENOSPC", "write")
         return self._f.write(data)
 
+    def flush(self):
+        if getattr(self, "_deferred", False):
+            self._deferred = False
+            raise _oserror("ENOSPC", "flush of buffered data")
+        return self._f.flush()
+
     def close(self):
+        if getattr(self, "_deferred", False):
+            self._deferred = False
+            self._f.close()
+            raise _oserror("ENOSPC", "close (buffered data could not be written)")
         a = IO.armed
         if a and a["kind"] == "K8" and "w" in self._mode:
             self._f.close()
